@@ -223,7 +223,16 @@ func findSites(src string, lex []reflex.Lexeme) []site {
 	n := len(lex)
 	ctx := contexts(lex)
 	add := func(t, kind string, pos int, e edit, nlDup, final bool) {
-		out = append(out, site{t: t, kind: "in:" + ctx[pos] + "," + kind, e: e, pos: pos, nlDup: nlDup, final: final})
+		// sites at a line break / line start / end of file are additionally qualified by
+		// the enclosing construct: the token pair (string, identifier) around a line break
+		// means one thing inside `import (` and another between two statements. Sites
+		// between two tokens of one line are identified by the token pair alone.
+		switch t {
+		case "block-comment", "remove-blank", "add-blank":
+		default:
+			kind = "in:" + ctx[pos] + "," + kind
+		}
+		out = append(out, site{t: t, kind: kind, e: e, pos: pos, nlDup: nlDup, final: final})
 	}
 	lineStart := func(i int) { // lexeme index i begins a line
 		if i >= n || lex[i].Type == reflex.Newline {
@@ -782,15 +791,17 @@ func Run() int {
 		}
 		seenCell := map[string]bool{}
 		byT := map[string][]int{}
+		nSingles := 0
 		for si, s := range p.sites {
 			byT[s.t] = append(byT[s.t], si)
 			cell := s.t + "@" + s.kind
 			if !thorough && seenCell[cell] {
 				continue // quick: one site per (transformation, site kind) cell and program
 			}
-			if heavy && cellCover[cell] >= 2 {
+			if heavy && (cellCover[cell] >= 2 || nSingles >= quickCapHeavy) {
 				continue
 			}
+			nSingles++
 			if !seenCell[cell] {
 				cellCover[cell]++
 			}
@@ -799,6 +810,9 @@ func Run() int {
 		}
 		// all sites of one transformation at once (only the individually token-preserving ones)
 		for _, t := range transformations {
+			if heavy && !(t == "blank-line" || t == "comment-line" || t == "crlf" || t == "remove-blank" || t == "add-blank") {
+				continue // quick tier, expensive program: the styles below cover the other transformations at all sites
+			}
 			var ok []int
 			for _, si := range byT[t] {
 				if txt, fine := apply(p.src, []site{p.sites[si]}); fine && p.preserved(txt, []site{p.sites[si]}) {
@@ -919,6 +933,9 @@ func Run() int {
 	r.Set("work_items_phase1", nPhase1)
 	r.Set("work_items_pairs", nPairs)
 	r.Set("heavy_programs_reduced_to_uncovered_cells", nHeavy)
+	if !thorough {
+		r.Set("quick_reductions", fmt.Sprintf("one site per (transformation, site kind) cell and program; programs with imports or > 150 tokens: only cells exercised by < 2 cheaper programs, at most %d single-site variants, all-at-once only for blank-line/comment-line/crlf/remove-blank/add-blank plus the four styles; the thorough tier has none of these reductions", quickCapHeavy))
+	}
 	r.Set("variants_by_phase_and_transformation", c.perT)
 	r.Set("variants_rejected_by_reference_lexer_as_not_token_preserving", c.notPres)
 	r.Set("overlapping_edit_pairs_skipped", int(c.overlap))
@@ -936,6 +953,9 @@ func Run() int {
 	r.Assumef("only the main file is re-laid-out; std imports resolve to the working tree's std copied next to the binary")
 	return r.Finish()
 }
+
+// quickCapHeavy bounds the single-site variants of one expensive program in the quick tier.
+const quickCapHeavy = 150
 
 // styles: several transformations applied at all their sites at once.
 var styles = []struct {
